@@ -25,9 +25,14 @@ Definition q_mult (m : Z) : Z :=
 
 Definition shift_ok (s : Z) : bool := (0 <=? s) && (s <? 64).
 
+(* a significand that rounded up to 2^31 is renormalised (as the TFLite reference does) before the
+   shift is derived and range-tested *)
+Definition q_renorm (q E : Z) : Z * Z := if q =? 2 ^ 31 then (q / 2, E + 1) else (q, E).
+
 Definition q_scale (m e : Z) : Z * Z :=
-  let shift := 31 - q_exp m e in
-  if shift_ok shift then (q_mult m, shift) else (0, 16).
+  let '(q, E) := q_renorm (q_mult m) (q_exp m e) in
+  let shift := 31 - E in
+  if shift_ok shift then (q, shift) else (0, 16).
 
 (* reduced_quantise_scale *)
 Definition r_mult (q : Z) : Z := if q <? 32767 * 65536 then (q + 32768) / 65536 else 32767.
